@@ -77,3 +77,20 @@ NOT_APPLICABLE = {
     "C11": "round trip dominated by ete3's Newick writer/parser, an external unverified pair; assuming its contract assumes the property",
     "C12": "process-level behaviour (argparse, files, JSON lines, exit status): outside function contracts",
 }
+
+CLAIMED["C01"] = dict(
+    text="Bounded (labelled exploration): reconcile_thl, reconcile_exhaustive and generate_all are run on all binary object trees <= 3 (4 thorough) leaves x species trees "
+         "<= 3 (4) leaves with sampled leaf assignments (species carrying no object included) and cost vectors of the coherent region (zero and infinite costs included), "
+         "and compared with an independent enumeration + recount of ALL species mappings: validity, cost = minimum, enumerator yields every valid reconciliation exactly once, "
+         "no exception. In addition the evaluator the solvers re-rank with (node_event, _cost_rec, cost) is PROVED from the real AST against the event-model spec (C06 contracts). "
+         "The Bellman contracts of the THL table functions are not discharged, so nothing about the solvers themselves is counted as proved.",
+    note="Trusted: the brute-force oracle (standin/recon.py: parent-chain ancestry, recount from the property's event model); bounds as stated; for the proved cone: pyvc encoding, z3/cvc5, tree axioms, "
+         "assumed ete3 and LowestCommonAncestor core contracts. Four genuine defects found by this check were repaired in /repo (fix: commits, see known_findings.jsonl).",
+)
+CLAIMED["C05"] = dict(
+    text="Proof at the tag level: Entry.update, Entry.combine and Entry.__iter__ are verified from the real AST (unbounded histories, all policy pairs): under ALL the retained tags are "
+         "exactly the tags of optimal candidates / optimal pairs, under ANY exactly one of them, and iteration yields each retained tag once with the entry's value. "
+         "Solver level (every optimal solution returned exactly once under ALL, exactly one under ANY, same cost, empty only without solution): bounded stand-in only - thl and exhaustive "
+         "against the complete optimal set of a brute-force oracle on the C01 scope.",
+    note="Trusted: pyvc encoding; z3/cvc5; 'tagged' = truthy info; brute-force oracle for the bounded part. Ordered / unordered solvers are covered under C02 / C03.",
+)
